@@ -22,6 +22,25 @@ def ltl_spec(text, names):
     return s
 
 
+def ltl_online(text, names, data, n, period, stl_pastifier, times):
+    """The LTL front end with the discrete-time online interpreter: pastify() + update() per sample."""
+    from rtamt.spec.abstract_specification import AbstractOnlineSpecification
+    from rtamt.syntax.ast.parser.ltl.specification_parser import LtlAst
+    from rtamt.semantics.stl.discrete_time.online.interpreter import StlDiscreteTimeOnlineInterpreter
+    from rtamt.pastifier.ltl.pastifier import LtlPastifier
+    from rtamt.pastifier.stl.pastifier import StlPastifier
+    s = AbstractOnlineSpecification(LtlAst(), StlDiscreteTimeOnlineInterpreter(),
+                                    pastifier=(StlPastifier if stl_pastifier else LtlPastifier)())
+    for v in names:
+        s.declare_var(v, 'float')
+    if period:
+        s.set_sampling_period(period[0], period[1], 0.1)
+    s.spec = text
+    s.parse()
+    s.pastify()
+    return [s.update(times[i], [(k, data[k][i]) for k in names]) for i in range(n)]
+
+
 def expand_unless(f):
     def fn(g):
         if g[0] == 'unless':
@@ -36,7 +55,7 @@ VARIANTS = ('alias', 'colon', 'extra-parens', 'minimal-parens', 'mix', 'semicolo
 
 class C15(Prop):
     id = 'C15'
-    rule_added = 'The unless law is also run under another sampling period x default unit. The unless law is also run under an interface-aware semantics with a random io assignment. 36 enumerated two-time-scale spellings (unit suffixes vs plain numbers of the default unit, keywords vs aliases; online and offline).'
+    rule_added = 'The LTL front end also online: pastify() + update() per sample, under sampling periods {1 s, 500 ms, 250 ms, 1000 ms, 2 s, 3 s}, against the STL front end driven the same way. The unless law is also run under another sampling period x default unit. The unless law is also run under an interface-aware semantics with a random io assignment. 36 enumerated two-time-scale spellings (unit suffixes vs plain numbers of the default unit, keywords vs aliases; online and offline).'
     rule = ('a generated formula is printed canonically (keywords, fully parenthesised) and in variant spellings: all '
             'aliases (G F U W S O H X Y sX sY ! & | -> <->), ":" separators, redundant parentheses, parentheses '
             'dropped wherever the grammar precedence/left-associativity makes them redundant (precedence table '
@@ -48,7 +67,7 @@ class C15(Prop):
                    'operators used as right operands stay parenthesised', 'NaN positions are not compared']
     floors = {'quick': (200, 60), 'thorough': (4000, 1000)}
     must_reach = []
-    quick_cases = 700
+    quick_cases = 500
     thorough_cases = 300000
     shrink_data = False
 
@@ -261,7 +280,51 @@ class C15(Prop):
             if i is not None:
                 v.bad('variant-differs:ltl', 'LTL front end on %r gives %r at sample %d, STL front end %r' % (
                     text, got[i], i, base[i]))
+            if not v.viol and not lang.has_unbounded_future(f) and not (ops & set(['until'])):
+                self.ltl_online_variant(v, f, text, names, data, n, rel, exp)
         return v
+
+    def ltl_online_variant(self, v, f, text, names, data, n, rel, exp):
+        """The LTL front end online: pastify() (next/s_next are the only look-ahead of an untimed formula) and one
+        update() per sample, under a sampling period that need not be 1 s, with either pastifier class - against the
+        STL front end driven the same way, at every update i >= h."""
+        import random
+        from fractions import Fraction as Fr
+        r2 = random.Random(len(text) * 31 + n)
+        period = r2.choice([None, (500, 'ms'), (2, 's'), (250, 'ms'), (1000, 'ms'), (3, 's')])
+        P = Fr(1) if period is None else Fr(period[0] * {'s': 1000, 'ms': 1}[period[1]], 1000)
+        times = [float(i * P) for i in range(n)]
+        h = lang.horizon(f)
+        from rtverif import pastmodel
+        if h and pastmodel.past_over_future(f):
+            # the open finding D-past-over-future: what a past operator above a look-ahead operand returns after
+            # pastify() is wrong near the start in a construction-dependent way (the comparator is not reliable)
+            v.info['ltl-online:skipped-inside-D-past-over-future'] = 1
+            return
+        v.info['variant:ltl-online%s' % ('' if not h else '-pastified')] = 1
+        try:
+            want = drive.dt_online(text, names, data, n, times=times, pastify=True,
+                                   sd={'period': (period[0], period[1], 0.1)} if period else None)
+        except Exception as e:
+            return                               # the STL front end itself: C03 / C17
+        for stlp in (True,):
+            # (only the pastifier class the library itself pairs with its front ends: a bare LtlPastifier is a base
+            # class that no specification class of rtamt instantiates)
+            try:
+                got = ltl_online(text, names, data, n, period, stlp, times)
+            except Exception as e:
+                v.bad('variant-raises:ltl-online', 'LTL front end (%s, period %s) on %r: pastify()/update() raised %s: %s; '
+                      'the STL front end returns normally' % ('StlPastifier' if stlp else 'LtlPastifier', period, text,
+                                                              type(e).__name__, e))
+                return
+            for i in range(h, n):
+                if exp[i - h] != exp[i - h]:
+                    continue
+                if not refd.same(got[i], want[i], rel):
+                    v.bad('variant-differs:ltl-online', 'LTL front end (%s, period %s) on %r after pastify(): update #%d '
+                          'returns %r, the STL front end %r; data=%s' % ('StlPastifier' if stlp else 'LtlPastifier', period,
+                                                                       text, i, got[i], want[i], data))
+                    return
 
 
     def extra(self, ctx):
